@@ -1029,16 +1029,18 @@ _FAULT = ("MC_Conserve.tla", "MC_Conserve_fault.cfg", 900)
 _C01 = ("MC_Conserve.tla", "MC_Conserve_c01.cfg", 600)
 _CRASH_T = ("MC_Conserve.tla", "MC_Conserve_thorough.cfg", 3000)
 _DEEP = ("MC_Conserve.tla", "MC_Conserve_deep.cfg", 3000)
+# everything at once (3 trees, 3 settings, 5 backups, 3 deletes, kills, 2 faults, concurrency): random behaviours
+_SIM = ("MC_Conserve.tla", "MC_Conserve_sim.cfg", 1800, ("-simulate", "num=40000", "-depth", "300"))
 _FAULT_T = ("MC_Conserve.tla", "MC_Conserve_fault_thorough.cfg", 3000)
 MODELS = {
     "C01": {"quick": [_C01, ("Restore.tla", "Restore_repo.cfg", 300)], "thorough": [_C01, _CRASH_T, ("Restore.tla", "Restore_repo.cfg", 300)]},
-    "C02": {"quick": [_CRASH], "thorough": [_CRASH_T, _DEEP]},
+    "C02": {"quick": [_CRASH], "thorough": [_CRASH_T, _DEEP, _SIM]},
     "C03": {"quick": [_CRASH], "thorough": [_CRASH_T, _DEEP]},
     "C04": {"quick": [_FAULT], "thorough": [_FAULT_T]},
-    "C05": {"quick": [_CRASH, _FAULT], "thorough": [_CRASH_T, _FAULT_T]},
+    "C05": {"quick": [_CRASH, _FAULT], "thorough": [_CRASH_T, _FAULT_T, _SIM]},
     "C13": {"quick": [_CRASH], "thorough": [_CRASH_T, _FAULT_T]},
     "C14": {"quick": [_CRASH], "thorough": [_CRASH_T]},
-    "C06": {"quick": [("MC_Conserve.tla", "MC_Conserve_conc.cfg", 1200)], "thorough": [("MC_Conserve.tla", "MC_Conserve_conc.cfg", 1200)]},
+    "C06": {"quick": [("MC_Conserve.tla", "MC_Conserve_conc.cfg", 1200)], "thorough": [("MC_Conserve.tla", "MC_Conserve_conc.cfg", 1200), _SIM]},
     "C07": {"quick": [_CRASH], "thorough": [_CRASH_T]},
     "C16": {"quick": [("Restore.tla", "Restore_repo.cfg", 300)], "thorough": [("Restore.tla", "Restore_repo.cfg", 300)]},
     "C09": {"quick": [("MC_Conserve.tla", "MC_Conserve_validate.cfg", 1800)], "thorough": [("MC_Conserve.tla", "MC_Conserve_validate.cfg", 1800), _CRASH]},
@@ -1061,8 +1063,9 @@ def run_check(prop, tier, seed, t0, keep=False):
         scens = gen_out
     by_id = {s["id"]: s for s in scens}
     mc = list(mc)
-    for (module, cfg, tmo) in MODELS.get(prop, {}).get(tier, []):
-        r = cvlib.run_tlc_model(module, cfg, timeout=tmo)
+    for entry in MODELS.get(prop, {}).get(tier, []):
+        module, cfg, tmo = entry[:3]
+        r = cvlib.run_tlc_model(module, cfg, timeout=tmo, extra=list(entry[3]) if len(entry) > 3 else None)
         mc.append((module, cfg, r))
         if not r["ok"]:
             print(r["out"][-3000:])
@@ -1097,7 +1100,8 @@ def run_check(prop, tier, seed, t0, keep=False):
         "traces_validated_against_impl": len(scens),
         "events_validated": res["events"],
         "exhaustive": False,
-        "model_configs": [{"config": cfg, "distinct_states": r["states"], "states_generated": r["transitions"], "wall_s": round(r["wall"], 1)} for _, cfg, r in mc],
+        "model_configs": [{"config": cfg, "distinct_states": r["states"], "states_generated": r["transitions"], "wall_s": round(r["wall"], 1),
+                           "exhaustive": not r.get("simulated", False), **({"random_behaviours": r["traces"]} if r.get("simulated") else {})} for _, cfg, r in mc],
         "other_monitors_fired": other,
     }
     if proto:
